@@ -152,10 +152,19 @@ def variants(node, defs, k, hints=True, in_union=False, stack=(), big=True):
                     import array as _array
 
                     out.append((_array.array("q", [b, last]), 1))  # a typed array is a sequence like any other
-                if ik["k"] == "double" and "logical" not in ik:
+                if ik["k"] in ("float", "double") and "logical" not in ik:
                     import array as _array
 
-                    out.append((_array.array("d", [0.5, -1e300]), 1))
+                    # typed arrays of either width under either item type: items are values, not raw memory
+                    out.append((_array.array("d", [0.5, -2.25]), 1))
+                    out.append((_array.array("f", [0.5, -2.25, 1.5]), 1))
+                    if ik["k"] == "double":
+                        out.append((_array.array("d", [0.5, -1e300]), 1))
+                if ik["k"] in ("int", "long") and "logical" not in ik:
+                    import array as _array
+
+                    out.append((_array.array("h", [1, -2, 300]), 1))
+                    out.append((_array.array("B", [0, 255]), 1))
             if not in_union:
                 out.append(((b, b), 1))
             out += [([b, v], c + 1) for v, c in iv[1:] if c + 1 <= k]
@@ -233,6 +242,11 @@ def variants(node, defs, k, hints=True, in_union=False, stack=(), big=True):
             dflt = [f["name"] for f in n["fields"] if "default" in f or accepts_null(f["type"], defs)]
             if len(dflt) >= 2:
                 out.append(({kk: vv for kk, vv in b.items() if kk not in dflt}, 1))  # every default taken at once
+            if dflt:
+                import collections as _collections
+
+                # a mapping that fabricates values for missing keys: an absent field is still absent
+                out.append((_collections.defaultdict(int, {kk: vv for kk, vv in b.items() if kk not in dflt}), 1))
         return out
     raise AssertionError(kd)
 
